@@ -42,9 +42,14 @@ func spec(key echx.KeyPair, aead uint16, share int) echx.Spec {
 
 // run returns the observable outcome of one configuration.
 func run(keys []ech.Key, target echx.KeyPair, aead uint16, retry bool) (outcome string, panicked any) {
+	return runSplit(keys, target, aead, retry, -1)
+}
+
+// runSplit hands the key list over in two WithKeys options split at index split (-1: a single option).
+func runSplit(keys []ech.Key, target echx.KeyPair, aead uint16, retry bool, split int) (outcome string, panicked any) {
 	s1 := spec(target, aead, 32)
 	b1 := s1.Build()
-	sess, err, p := echx.OpenSession(b1.Outer.Record(), keys)
+	sess, err, p := echx.OpenSessionSplit(b1.Outer.Record(), keys, split)
 	if p != nil {
 		return "", p
 	}
@@ -181,6 +186,14 @@ func Run(r *ev.Run) {
 		case o != want:
 			r.Violation(fmt.Sprintf("outcome-depends-on-other-keys:%s:target=%s:hasT=%v:%s", kind, c.Target, hasT, shape(c.List)),
 				fmt.Sprintf("key list %q gives a different outcome than the reference list:\n got  %.300s\n want %.300s", c.List, o, want), c)
+		}
+		// the same keys given through two WithKeys options (every split point) must behave like one list
+		if p == nil && o == want && len(keys) >= 2 && len(keys) <= 3 {
+			for split := 0; split <= len(keys); split++ {
+				if o2, p2 := runSplit(keys, ks[c.Target[0]], c.AEAD, c.Retry, split); p2 != nil || o2 != o {
+					r.Violation("outcome-depends-on-withkeys-split:"+kind, fmt.Sprintf("key list %q given as WithKeys(list[:%d]), WithKeys(list[%d:]) behaves differently from WithKeys(list)", c.List, split, split), c)
+				}
+			}
 		}
 		oc := "rejected/passthrough"
 		if strings.HasPrefix(o, "accepted=true") {
